@@ -108,6 +108,7 @@ fn exercise_deep(bytes: &[u8]) -> String {
     use serde::de::IgnoredAny;
     fn all<T: serde::de::DeserializeOwned>(name: &str, bytes: &[u8], opts: &serde_saphyr::Options) -> Option<String> {
         let tag = |ep: &str| Some(format!("panic {ep} deep {name}"));
+        if std::env::var("VERIF_TRACE").is_ok() { eprintln!("exercise_deep {name}"); }
         let r = catch(|| serde_saphyr::from_slice_with_options::<T>(bytes, opts.clone()).map(|_| ()).map_err(|e| render_all(&e)));
         if r.is_err() { return tag("slice"); }
         let r = catch(|| serde_saphyr::from_reader_with_options::<_, T>(std::io::Cursor::new(bytes.to_vec()), opts.clone()).map(|_| ()).map_err(|e| render_all(&e)));
